@@ -270,6 +270,16 @@ func VerifC16Edits() {
 	for i := 0; i < len(s); i++ {
 		v.Assume(s[i] < 0x80)
 	}
+	// what a string is does not depend on what was parsed before it: the sentence the string was
+	// made from, or a sentence with the same characters apart from blanks, may have been parsed first
+	switch v.Choice("history", 3) {
+	case 1:
+		verifParsePath(base)
+	case 2:
+		verifParsePath(base)
+		verifParsePath("a.b / c.d")
+		verifParsePath("a.b/c.d")
+	}
 	pp, err, panicked := verifParsePath(s)
 	accepted := !panicked && err == nil
 	ref, sentence := refSentence(trimRightWs(s), 3)
